@@ -76,6 +76,12 @@ def gen_cases(tier):
             if kind in ('png', 'svg'):
                 for sub in itertools.combinations(range(15), 1):
                     yield ('color', kind, v, sub, 2)
+            if kind == 'png' and v in ('M4', 7):
+                # transparent light modules + 2..4 further colours: palettes of 4, 5 and 6 entries incl. the transparent one
+                for r in (2, 3, 4):
+                    for sub in itertools.combinations(range(15), r):
+                        if r < 4 or sub[0] < 3:
+                            yield ('color', kind, v, sub, 2)
     if not q:
         for v in ('M4', 7):
             for hi in range(0, 1 << 15, 64):
